@@ -114,6 +114,11 @@ impl tower::Service<Request<Bytes>> for NodeService {
                     *resp.status_mut() = sc;
                 }
             }
+            if h.contains_key("echo-all") {
+                for (k, v) in h.iter() {
+                    resp.headers_mut().insert(k.clone(), v.clone());
+                }
+            }
             // headers the caller chose freely ("x-..." in any case) are echoed back name by name, value reversed
             for (k, v) in h.iter() {
                 if k.len() > 2 && k[..2].eq_ignore_ascii_case("x-") {
@@ -355,6 +360,19 @@ async fn net_cmd(
                     if let Some((k, v)) = kv.split_once(':') {
                         req.headers_mut().insert(String::from_utf8(unhex(k)).unwrap(), String::from_utf8(unhex(v)).unwrap());
                     }
+                }
+            }
+            // idh=<hex name>,<hex name>..@<node>[:u]: headers that name node <node>'s identity (its PeerId in hex, lower or
+            // upper case) under each of the given names; the handler is asked to copy every header into its answer
+            if let Some(spec) = a.get("idh") {
+                if let Some((names, who)) = spec.split_once('@') {
+                    let (who, enc) = who.split_once(':').unwrap_or((who, "l"));
+                    let pid = pids[&who.parse::<usize>().unwrap()];
+                    let v = if enc == "u" { hex::encode_upper(pid.0) } else { hex::encode(pid.0) };
+                    for n in names.split(',') {
+                        req.headers_mut().insert(String::from_utf8(unhex(n)).unwrap(), v.clone());
+                    }
+                    req.headers_mut().insert("echo-all".into(), "1".into());
                 }
             }
             let sent = digest(req.body());
